@@ -45,6 +45,22 @@ let () =
     let bytes = bytes_of_hex o.(0) in
     let nbytes = Stdlib.List.length bytes in
     let cuts = o.(2) in
+    if i.(1) = "crashsave" then begin
+      (* C18: the save of a new table died after n bytes while overwriting an older file *)
+      String.iteri (fun n ch ->
+        if ch <> '.' then
+          spec "c18_truncated_file_loaded" (ch = 'E' || ch = 'S')
+            (Printf.sprintf "%s: a save that died after %d bytes over an existing file left something that loads without complaint and is not the table being saved" i.(2) n)) cuts;
+      (match !fails with a :: b :: _ -> [a; b] | l -> l)
+    end else
+    if i.(1) = "encoder" then begin
+      (* C18: one of the four street lookups cut short, the four loaded together through Encoder::load *)
+      if o.(1) <> "ok" then fails := Mismatch "the complete lookup files failed to load through Encoder::load" :: !fails;
+      String.iteri (fun n ch ->
+        spec "c18_truncated_file_loaded" (ch = 'E' || ch = 'S')
+          (Printf.sprintf "street-%s lookup cut at byte %d of %d: Encoder::load returned a table with rows missing" i.(2) n nbytes)) cuts;
+      (match !fails with a :: b :: _ -> [a; b] | l -> l)
+    end else
     if i.(1) = "transitions" then begin
       (* C18 only: every strict prefix must fail *)
       if o.(1) <> "ok" then fails := Mismatch "complete transitions file failed to load in the implementation" :: !fails;
@@ -56,6 +72,8 @@ let () =
         end) cuts;
       !fails
     end else begin
+      if Array.length o > 3 && o.(3) = "0" then
+        spec "c17_loaded_table_equals_saved" false "the loaded table encodes to the same integers as the saved one but is not equal to it as a value";
       let k = Stdlib.List.assoc i.(1) kinds in
       let saved_rows = Stdlib.List.map k.to_row (rows_of i.(2)) in
       (* the table as the implementation iterates it; its order must be the model's key order *)
